@@ -14,9 +14,17 @@ from ..symx import SymReal, ENG, explore, check_sat, model_value
 from ..sem import t4 as t4sem, mcnp as ref, num as n
 
 
+LINEAR_PARTS = {
+    'identity': [(1, 0, 0), (0, 1, 0), (0, 0, 1)],
+    'mirror-shear': [(2, 1, 0), (0, -1, 0), (0, Fraction(1, 2), 3)],
+    'rot-scale': [(0, -2, 0), (1, 0, 1), (0, 0, Fraction(3, 2))],
+}
+
+
 def run_arb(task):
     from . import c03
-    tname, sigma = task
+    tname, sigma = task[:2]
+    mname = task[2] if len(task) > 2 else None
     t0 = time.time()
     stubs.install()
     from t4_geom_convert.Kernel.Surface import MacroBodies as MB
@@ -27,7 +35,13 @@ def run_arb(task):
     nv = len(refv)
     unit = 'facets:ARB/%s/%s' % (tname, ''.join('+' if x > 0 else '-' for x in sigma))
     o = [symx.var('o%d' % i) for i in range(3)]
-    M = [[symx.var('m%d%d' % (i, j)) for j in range(3)] for i in range(3)]
+    if mname is None:
+        M = [[symx.var('m%d%d' % (i, j)) for j in range(3)] for i in range(3)]
+    else:
+        # fixed linear part, symbolic position: every sign condition is linear in the position, so the solver
+        # decides paths that the fully symbolic affine image leaves open (e.g. a body far from the origin)
+        unit += '/' + mname
+        M = [[SymReal(Fraction(x)) for x in row] for row in LINEAR_PARTS[mname]]
     verts = [[o[i] + sum((M[i][j] * Fraction(rv_[j]) for j in range(1, 3)), M[i][0] * Fraction(rv_[0])) for i in range(3)]
              for rv_ in refv]
     flat = [c for v in verts for c in v] + [SymReal(0)] * (3 * (8 - nv))
@@ -48,7 +62,7 @@ def run_arb(task):
     cen = [sum((v[i] for v in verts[1:]), verts[0][i]) * Fraction(1, nv) for i in range(3)]
     det = (M[0][0] * (M[1][1] * M[2][2] - M[1][2] * M[2][1]) - M[0][1] * (M[1][0] * M[2][2] - M[1][2] * M[2][0])
            + M[0][2] * (M[1][0] * M[2][1] - M[1][1] * M[2][0]))
-    pre = [det.r.z3_cmp('!=')]
+    pre = [det.r.z3_cmp('!=')] if mname is None else []
     facets_idx = [[int(ch) - 1 for ch in str(d) if ch != '0'] for d in descr if d]
     nfac = len(facets_idx)
     ENG.reset(pre)
